@@ -34,7 +34,9 @@ META["explanation"] += " " + '(ZB-ens) a callee contract may state what the resu
 
 META["explanation"] += " " + '(REC-bound, shared with C01) call-graph rule: every cycle among the text-taking functions of JSON.hpp (parseValue -> parseArray/parseObject -> parseValue) is cut by a call that passes depth + k and is dominated by the true edge of depth < CONST, so the stack depth is not chosen by the text.'
 
-def run(ctx):
+META["explanation"] += " " + 'Taken over unchanged from other modules because a seeded change to this property was reported by them (rules.common.shared): TB-hash/HC-confirm from C13.'
+
+def _run_own(ctx):
     m = ctx.pattern()
     rules = {
         "ZB-read": Rule("ZB-read", "every raw read of the input buffer is proven in [0,length) on every path", floor=20),
@@ -55,3 +57,11 @@ def run(ctx):
     from rules.common import rule_recursion_bound
     out.append(rule_recursion_bound(ctx, m, "JSON.hpp"))
     return out
+
+
+def run(ctx):
+    rules_ = list(_run_own(ctx) or [])
+    from rules.common import shared
+    have = set(r_.rid for r_ in rules_)
+    rules_ += [r_ for r_ in shared(ctx, 'C13', ['TB-hash', 'HC-confirm']) if r_.rid not in have]
+    return rules_
